@@ -196,7 +196,7 @@ def case_strategy(draw, ctx=None):
 
 
 def shard(ctx):
-    drive(ctx, case_strategy(ctx), check_case, ctx.share(800, 50000))
+    drive(ctx, case_strategy(ctx), check_case, ctx.share(2400, 80000))
 
 
 def replay(ctx, case):
